@@ -11,6 +11,7 @@ T == ndJsonDeserialize(IOEnv.TRACE_FILE)
 
 Verdict(t) ==
     IF ~t.uncut.ok THEN "ok"                                   \* nothing to compare
+    ELSE IF t.refusal_ok /\ ~t.cut.ok /\ t.cut.err = "ValueError" THEN "ok"      \* merge_asof on an import without divisions refuses ("input must be sorted!")
     ELSE IF t.cut_failed THEN "CutFailed"
     ELSE LET ord == IF t.select THEN OrdDefined(t.head) ELSE t.ord      \* a selection on the import is compared under the head's own rules
              idx == IF t.select THEN IdxDefined(t.head) ELSE t.idx
